@@ -4,7 +4,11 @@ use crate::{jura, uist};
 use rotala::http::jura::AppState as JApp;
 use rotala::http::uist::AppState as UApp;
 use rotala::input::penelope::{Penelope, PenelopeQuote};
+use std::cell::RefCell;
 use std::collections::HashMap;
+thread_local! {
+    static LAST_TICK_DEBUG: RefCell<String> = const { RefCell::new(String::new()) };
+}
 
 pub trait Srv: Sized {
     fn single(name: &str, data: Penelope) -> Self;
@@ -24,6 +28,9 @@ pub trait Srv: Sized {
     fn ids(&self) -> Vec<u64>;
     /// tick that also returns the in-process result as a JSON value (for the transport comparison)
     fn tick_annot(&mut self, bt: u64) -> Option<(String, serde_json::Value)>;
+    /// `{:?}` of the typed response the last `tick_annot` stands for: the only view of private fields (Jura's `cloid`,
+    /// `reduce_only`, ...) that does not pass through the serde derives under test
+    fn last_tick_debug(&self) -> String;
 }
 
 impl Srv for UApp {
@@ -87,7 +94,13 @@ impl Srv for UApp {
             Some(ix) if ix.len() == batch.len() => format!("A {} {}", ix.len(), ix.iter().map(|i| i.to_string()).collect::<Vec<_>>().join(" ")),
             _ => format!("A {} BAD", inserted.len()),
         };
-        Some((a, serde_json::json!({"has_next": hn, "executed_trades": trades, "inserted_orders": inserted})))
+        let j = serde_json::json!({"has_next": hn, "executed_trades": trades, "inserted_orders": inserted});
+        let typed = rotala::http::uist::uistv1_server::TickResponse { has_next: hn, executed_trades: trades, inserted_orders: inserted };
+        LAST_TICK_DEBUG.with(|d| *d.borrow_mut() = format!("{typed:?}"));
+        Some((a, j))
+    }
+    fn last_tick_debug(&self) -> String {
+        LAST_TICK_DEBUG.with(|d| d.borrow().clone())
     }
 }
 
@@ -203,7 +216,13 @@ impl Srv for JApp {
             _ => format!("A {} BAD", inserted.len()),
         };
         // everything the in-process call returns, including the ids of the triggered children
-        Some((a, serde_json::json!({"has_next": hn, "executed_trades": fills, "inserted_orders": inserted, "triggered_order_ids": kids})))
+        let j = serde_json::json!({"has_next": hn, "executed_trades": fills, "inserted_orders": inserted, "triggered_order_ids": kids});
+        let typed = rotala::http::jura::jurav1_server::TickResponse { has_next: hn, executed_trades: fills, inserted_orders: inserted, triggered_order_ids: kids };
+        LAST_TICK_DEBUG.with(|d| *d.borrow_mut() = format!("{typed:?}"));
+        Some((a, j))
+    }
+    fn last_tick_debug(&self) -> String {
+        LAST_TICK_DEBUG.with(|d| d.borrow().clone())
     }
 }
 
